@@ -7,6 +7,14 @@ Property theorems only, over the protocol model `Model/AllocProtocol.lean` (tied
 seeded sets of allocations failing, under a longjmp-ing and under a returning error handler, is compared
 event by event with the model's trace; the sizes are the real ones).
 
+The model also tracks initialisation (a block's contents are indeterminate until written; reading a field
+the delete functions need before it was written is the fault `uninitRead`) and which variables of a frame
+that survives the longjmp hold the object (`publish` = `*dest = v`), and contains mj_compile of a plain
+model with the catch block of mjCModel::Compile (`compile_*` theorems at the end).  Second tie:
+`translate/c21_protocol.py` extracts the ordered alloc / null-test / field-store / `*dest =` / free /
+field-read skeleton of mj_makeModel, mj_makeRawData, mj_deleteModel, mj_deleteData, TryCompile and the catch
+block from the C / C++ text; it must equal the skeleton `drv_c21` prints from these very programs.
+
 Every theorem quantifies over *all* fault oracles `fails : Nat → Bool` (single faults and every
 multi-fault sequence alike) and all positive block sizes.
 
@@ -51,8 +59,8 @@ def reported (h : H) : Bool := h.trace.any (fun e => e == .E || e == .W)
 local macro "eval_cases" f:ident : tactic =>
   `(tactic| (cases h0 : $f 0 <;> cases h1 : $f 1 <;> cases h2 : $f 2 <;>
       simp_all [exec, run, raise, deref, freeVar, freeVars, lookup, H.init, Scen.get, makeData, copyData, copyModel,
-        loadModel, saveModel, makeRawDataBody, makeModelBody, deleteData, deleteModel, Variant.raising, isFault,
-        failedSome, reported, Nat.ne_of_gt]))
+        loadModel, saveModel, makeRawDataBody, makeModelBody, deleteData, deleteModel, deleteDataOf, deleteModelOf,
+        block, lookupFld, Variant.raising, isFault, failedSome, reported, Nat.ne_of_gt]))
 
 /-! ### longjmp handler: no undefined behaviour, the failure is reported -/
 
@@ -77,7 +85,8 @@ theorem fault_free_run_clean (sc : Scen) (vt : Variant) (r : Regime) (s1 s2 s3 :
   have h0 := hf 0; have h1 := hf 1; have h2 := hf 2
   cases sc <;> cases vt <;> cases r <;>
     simp_all [exec, run, raise, deref, freeVar, freeVars, lookup, H.init, Scen.get, makeData, copyData, copyModel,
-      loadModel, saveModel, makeRawDataBody, makeModelBody, deleteData, deleteModel, Variant.raising, Nat.ne_of_gt]
+      loadModel, saveModel, makeRawDataBody, makeModelBody, deleteData, deleteModel, deleteDataOf, deleteModelOf,
+      block, lookupFld, Variant.raising, Nat.ne_of_gt]
 
 /-! ### the tree (`.asIs`) with a longjmp handler: what is leaked, exactly -/
 
@@ -131,7 +140,7 @@ theorem makeData_zero_arena (vt : Variant) (s1 s2 : Nat) (p1 : 0 < s1) (p2 : 0 <
     r.1 = .jumped ∧ r.2.live = [] ∧ reported r.2 = true := by
   cases vt <;>
     simp_all [exec, run, raise, deref, freeVar, freeVars, lookup, H.init, makeData, makeRawDataBody, deleteData,
-      Variant.raising, reported, Nat.ne_of_gt]
+      deleteDataOf, block, lookupFld, Variant.raising, reported, Nat.ne_of_gt]
 
 /-! ### the proposed fix (`.tryMalloc`): the whole property, for every oracle -/
 
@@ -162,16 +171,16 @@ theorem returning_handler_faults (sc : Scen) (vt : Variant) (s1 s2 s3 : Nat) (p1
     first
     | exact absurd rfl hsc
     | simp_all [exec, run, raise, deref, freeVar, freeVars, lookup, H.init, Scen.get, Scen.obj, makeData, copyData,
-        copyModel, loadModel, makeRawDataBody, makeModelBody, Variant.raising, Nat.ne_of_gt]
+        copyModel, loadModel, makeRawDataBody, makeModelBody, block, lookupFld, Variant.raising, Nat.ne_of_gt]
 
 /-- second block refused and the handler returns: the tree frees the first block in its clean-up branch
     and then keeps using it (use after free); mj_saveModel passes the NULL mjVFS on. -/
 theorem returning_handler_faults_second (sc : Scen) (s1 s2 s3 : Nat) (p1 : 0 < s1) (p2 : 0 < s2) (p3 : 0 < s3)
     (fails : Nat → Bool) (h0 : fails 0 = false) (h1 : fails 1 = true) :
     isFault (exec .returning fails (sc.get .asIs s1 s2 s3)).1 = true := by
-  cases sc <;>
+  cases sc <;> cases h2 : fails 2 <;>
     simp_all [exec, run, raise, deref, freeVar, freeVars, lookup, H.init, Scen.get, makeData, copyData, copyModel,
-      loadModel, saveModel, makeRawDataBody, makeModelBody, Variant.raising, isFault, Nat.ne_of_gt]
+      loadModel, saveModel, makeRawDataBody, makeModelBody, block, lookupFld, Variant.raising, isFault, Nat.ne_of_gt]
 
 /-- in no regime, variant, scenario or oracle is a block freed twice (the first fault of a run is always
     a NULL dereference or a use after free, never a double free). -/
@@ -179,5 +188,96 @@ theorem never_double_free (sc : Scen) (vt : Variant) (r : Regime) (s1 s2 s3 : Na
     (p3 : 0 < s3) (fails : Nat → Bool) (v : Var) :
     (exec r fails (sc.get vt s1 s2 s3)).1 ≠ .fault (.doubleFree v) := by
   cases sc <;> cases vt <;> cases r <;> eval_cases fails
+
+/-! ### mj_compile: the data life-cycle of TryCompile under the compiler's own handler and catch block
+
+Sizes `s1 … s5` = sizeof(mjModel), model buffer, sizeof(mjData), data buffer, arena; eight `mju_malloc` calls
+(model 0-1, partial mjData 2-4, complete mjData 5-7).  The oracle is split call by call: once a call fails the
+run ends in the catch block, so nine leaves cover every `fails : Nat → Bool`. -/
+
+local macro "compile_simp" : tactic =>
+  `(tactic| simp_all [exec, runCatch, run, raise, deref, freeVar, freeVars, lookup, H.init, compile, compileWith,
+      compileNoClear, makeRawDataBody, makeRawDataPublishFirst, makeModelBody, deleteDataOf, deleteModelOf, block,
+      lookupFld, Variant.raising, isFault, failedSome, reported, Nat.ne_of_gt])
+
+local macro "compile_cases" f:ident : tactic =>
+  `(tactic| (
+      cases h0 : $f 0; rotate_left; compile_simp
+      cases h1 : $f 1; rotate_left; compile_simp
+      cases h2 : $f 2; rotate_left; compile_simp
+      cases h3 : $f 3; rotate_left; compile_simp
+      cases h4 : $f 4; rotate_left; compile_simp
+      cases h5 : $f 5; rotate_left; compile_simp
+      cases h6 : $f 6; rotate_left; compile_simp
+      cases h7 : $f 7 <;> compile_simp))
+
+/-- **mj_compile never dereferences NULL, a freed block or an indeterminate field, and frees nothing twice**
+    – neither on the way nor in the catch block that deletes `model` and `data` after an engine error: both
+    variants, every fault oracle.  (The catch block only ever sees structs whose `buffer`, `arena`,
+    `threadpool`, `nplugin` were written, because mj_makeModel / mj_makeRawData store into `*dest` last and
+    TryCompile resets `d` right after deleting it.) -/
+theorem compile_never_faults (vt : Variant) (s1 s2 s3 s4 s5 : Nat) (p1 : 0 < s1) (p2 : 0 < s2) (p3 : 0 < s3)
+    (p4 : 0 < s4) (p5 : 0 < s5) (fails : Nat → Bool) :
+    isFault (exec .longjmp fails (compile vt s1 s2 s3 s4 s5)).1 = false := by
+  cases vt <;> compile_cases fails
+
+/-- **The failure surfaces**: mj_compile ends in its catch block (returns NULL with the error recorded)
+    exactly when an allocation failed; otherwise the model is returned, deleted by the caller, and nothing
+    stays allocated. -/
+theorem compile_failure_surfaces (vt : Variant) (s1 s2 s3 s4 s5 : Nat) (p1 : 0 < s1) (p2 : 0 < s2) (p3 : 0 < s3)
+    (p4 : 0 < s4) (p5 : 0 < s5) (fails : Nat → Bool) :
+    let r := exec .longjmp fails (compile vt s1 s2 s3 s4 s5)
+    (failedSome r.2 = true → r.1 = .caught ∧ reported r.2 = true) ∧
+    (failedSome r.2 = false → r.1 = .returned none ∧ r.2.live = []) := by
+  cases vt <;> compile_cases fails
+
+/-- what mj_compile of the tree leaves allocated: the struct (and buffer) of the mjData under construction
+    when its buffer (arena) allocation fails – the catch block cannot see them, `*dest` is stored last – and
+    the mjModel struct when its buffer allocation fails. -/
+def expectedLeakCompile (fails : Nat → Bool) : List Nat :=
+  if fails 0 then [] else if fails 1 then [1] else if fails 2 then [] else
+  if fails 3 then [3] else if fails 4 then [4, 3] else if fails 5 then [] else
+  if fails 6 then [6] else if fails 7 then [7, 6] else []
+
+/-- **Exact leak set of mj_compile in the tree**, for every oracle (the same call sites as
+    `asIs_longjmp_live_exact`, reached through TryCompile). -/
+theorem compile_asIs_live_exact (s1 s2 s3 s4 s5 : Nat) (p1 : 0 < s1) (p2 : 0 < s2) (p3 : 0 < s3)
+    (p4 : 0 < s4) (p5 : 0 < s5) (fails : Nat → Bool) :
+    (exec .longjmp fails (compile .asIs s1 s2 s3 s4 s5)).2.live = expectedLeakCompile fails := by
+  simp only [expectedLeakCompile]
+  compile_cases fails
+
+/-- with non-raising allocations in mj_makeModel / mj_makeRawData, mj_compile leaks nothing, for every oracle. -/
+theorem compile_tryMalloc_clean (s1 s2 s3 s4 s5 : Nat) (p1 : 0 < s1) (p2 : 0 < s2) (p3 : 0 < s3)
+    (p4 : 0 < s4) (p5 : 0 < s5) (fails : Nat → Bool) :
+    let r := exec .longjmp fails (compile .tryMalloc s1 s2 s3 s4 s5)
+    isFault r.1 = false ∧ r.2.live = [] := by
+  compile_cases fails
+
+/-- the model is not blind to the order of `*dest = d`: were mj_makeRawData to publish the struct before its
+    buffer / arena allocations (and before `d->threadpool`, `d->nplugin` are written), a failure of either
+    allocation would make the catch block's mj_deleteData read an indeterminate `threadpool` – for all sizes
+    and whatever the oracle says about the other calls. -/
+theorem compile_publish_first_faults (s1 s2 s3 s4 s5 : Nat) (p1 : 0 < s1) (p2 : 0 < s2) (p3 : 0 < s3)
+    (p4 : 0 < s4) (p5 : 0 < s5) (fails : Nat → Bool) (h0 : fails 0 = false) (h1 : fails 1 = false)
+    (h2 : fails 2 = false) (h34 : fails 3 = true ∨ fails 4 = true) :
+    (exec .longjmp fails (compileWith (makeModelBody .asIs s1 s2 .cm) (makeRawDataPublishFirst .asIs s3 s4 s5 .cd)
+      (makeRawDataBody .asIs s3 s4 s5 .loc))).1 = .fault (.uninitRead .cd .threadpool) := by
+  cases h3 : fails 3 <;> cases h4 : fails 4 <;> compile_simp
+
+example : (fun k => k == 4) 0 = false ∧ (fun k => k == 4) 1 = false ∧ (fun k => k == 4) 2 = false ∧
+    ((fun k => k == 4) 3 = true ∨ (fun k => k == 4) 4 = true) := by decide
+
+/-- … nor to a stale `data`: without the `d = nullptr` after the first mj_deleteData(d), a failure of the
+    next allocation makes the catch block delete the freed struct again. -/
+theorem compile_stale_pointer_faults (s1 s2 s3 s4 s5 : Nat) (p1 : 0 < s1) (p2 : 0 < s2) (p3 : 0 < s3)
+    (p4 : 0 < s4) (p5 : 0 < s5) (fails : Nat → Bool) (h : ∀ k, k < 5 → fails k = false) (h5 : fails 5 = true) :
+    (exec .longjmp fails (compileNoClear .asIs s1 s2 s3 s4 s5)).1 = .fault (.useAfterFree .cd) := by
+  have h0 := h 0 (by omega); have h1 := h 1 (by omega); have h2 := h 2 (by omega)
+  have h3 := h 3 (by omega); have h4 := h 4 (by omega)
+  compile_simp
+
+example : (∀ k, k < 5 → (fun k => k == 5) k = false) ∧ (fun k => k == 5) 5 = true := by
+  refine ⟨?_, by decide⟩; intro k hk; simp; omega
 
 end MjProof.C21
